@@ -1,5 +1,6 @@
 import Pyc.Driver.Value
 import Pyc.Model.Output
+import Pyc.Model.FeeLoop
 
 namespace Pyc.Driver
 open Lean
@@ -44,6 +45,13 @@ def handleOutput (op : String) (j : Json) : R Json := do
   | "out.minada" => pure (ofInt (minLovelace (← getInt j "cpb") (← jOutput (← j.getObjVal? "o"))))
   | "fee.fee" =>
     pure (ofOptInt (fee (← jFeeParams (← j.getObjVal? "p")) (← getInt j "length") (← getInt j "steps") (← getInt j "mem") (← getInt j "ref")))
+  | "fee.loop" =>
+    -- the final loop of _add_change_and_fee over a recorded estimator table [[f, est f], ...] (absent f ↦ f: a fixed point)
+    let tab ← jList (jPair jInt jInt) (← j.getObjVal? "table")
+    let est : Int → Int := fun f => match tab.find? (·.1 == f) with | some p => p.2 | none => f
+    pure (match Pyc.FeeLoop.loop est (tab.length + 1) (← getInt j "f") with
+      | some f => ofInt f
+      | none => Json.null)
   | "fee.max" => pure (ofOptInt (maxTxFee (← jFeeParams (← j.getObjVal? "p")) (← getInt j "ref")))
   | "fee.tier" => pure (ofOptInt (tierFee (← jFeeParams (← j.getObjVal? "p")) (← getInt j "ref")))
   | _ => throw s!"unknown op {op}"
